@@ -32,7 +32,16 @@ struct JunkAlloc {
 	void deallocate(void *p, size_t) { free(p); }
 	void free(void *p) { ::free(p); }
 };
-using Tree = frg::rcu_radixtree<Val, JunkAlloc>;
+#ifdef C10_SCALAR_VALUE
+// a scalar payload (what a page cache keeps: a pointer per key). The entry itself is then a single word; the reader's plain read of
+// that word must still be ordered after the writer's construction of it.
+using Stored = Val *;
+static inline Val *deref(Stored *p) { return *p; }
+#else
+using Stored = Val;
+static inline Val *deref(Stored *p) { return p; }
+#endif
+using Tree = frg::rcu_radixtree<Stored, JunkAlloc>;
 
 static std::atomic<uint64_t> g_bad_value{0}, g_wrong_key{0}, g_lost{0};
 
@@ -54,6 +63,7 @@ static void lifetime(long long idx, int nreaders, unsigned nkeys) {
 	for(size_t i = 0; i < n; i++) state[i].store(0, std::memory_order_relaxed);
 	std::atomic<bool> stop{false};
 	std::atomic<uint64_t> finds{0}, hits{0};
+	std::vector<std::unique_ptr<Val>> owned; owned.reserve(n); (void)owned; // (scalar-payload build: the pointees outlive the readers)
 	std::vector<std::thread> th;
 	for(int t = 0; t < nreaders; t++) th.emplace_back([&, t] {
 		t_jit = 999331 * (t + 1) + idx;
@@ -62,7 +72,8 @@ static void lifetime(long long idx, int nreaders, unsigned nkeys) {
 			x ^= x << 13; x ^= x >> 7; x ^= x << 17;
 			size_t i = x % n;
 			int st = state[i].load(std::memory_order_relaxed);
-			Val *v = tree->find(keys[i]);
+			Stored *sp = tree->find(keys[i]);
+			Val *v = sp ? deref(sp) : nullptr;
 			mine++;
 			if(v) {
 				myhits++;
@@ -78,7 +89,11 @@ static void lifetime(long long idx, int nreaders, unsigned nkeys) {
 		uint64_t version = 1;
 		// phase 1: insert every key for good; phase 2: erase a third of them (flagged in flux first)
 		for(size_t i = 0; i < n; i++) {
+#ifdef C10_SCALAR_VALUE
+			owned.emplace_back(new Val(keys[i], version++)); tree->insert(keys[i], owned.back().get());
+#else
 			tree->insert(keys[i], keys[i], version++);
+#endif
 			state[i].store(1, std::memory_order_relaxed);
 			if(i % 8 == 0) std::this_thread::yield();
 		}
